@@ -111,7 +111,9 @@ def replay(prop, path, scratch):
     f = doc.get("failure")
     if not f:
         print(f"replay file names broken obligations only: {json.dumps(doc.get('broken_obligations'))[:600]}")
-        return 1
+        import subprocess
+        env = {**os.environ, "VERIF_SEED": str(doc.get("seed", 0))}
+        return subprocess.call([os.path.join(core.VERIF, "check"), prop, "--tier", doc.get("tier", "quick")], env=env)
     if f.get("stream") in REEVAL and isinstance(f.get("input", {}).get("source"), str):
         f2 = REEVAL[f["stream"]](prop, f, f["input"]["source"])
         if f2:
@@ -120,8 +122,12 @@ def replay(prop, path, scratch):
             return 1
         print(f"replay: the recorded case no longer fails for {prop}")
         return 0
-    print(f"replay: stream {f.get('stream')} has no single-case re-evaluation; re-run the check")
-    return 2
+    # no single-case re-evaluation for this stream: re-run the whole check with the recorded seed and tier
+    print(f"replay: re-running the {doc.get('tier', 'quick')} check of {prop} with seed {doc.get('seed', 0)} "
+          f"(stream {f.get('stream')} is replayed by regenerating its cases)")
+    import subprocess
+    env = {**os.environ, "VERIF_SEED": str(doc.get("seed", 0))}
+    return subprocess.call([os.path.join(core.VERIF, "check"), prop, "--tier", doc.get("tier", "quick")], env=env)
 
 
 # ------------------------------------------------------------------ projections
